@@ -347,6 +347,47 @@ def sched_setup(n, extra=None):
     return setup
 
 
+def _fn_node(shared, qualname):
+    import ast
+    mod, fn = qualname.rsplit(".", 1)
+    mi = shared.loader.load_module(mod)
+    return [n for n in mi.tree.body if isinstance(n, ast.FunctionDef) and n.name == fn][0]
+
+
+def sched_roles(shared, qualname, callee="train_st"):
+    """names / loop ordinal by ROLE (robust to renamed locals): the local that receives the
+    single-task result, the step counter compared in the scheduling loop's test, and the
+    ordinal of the outermost loop around the call of the single-task routine"""
+    import ast
+    from pyvc.interp import _loop_ordinals
+
+    node = _fn_node(shared, qualname)
+    ords = _loop_ordinals(node)
+
+    def is_call(c):
+        return isinstance(c, ast.Call) and isinstance(c.func, ast.Name) and c.func.id == callee
+
+    res = None
+    for n in ast.walk(node):
+        if isinstance(n, ast.Assign) and is_call(n.value) and len(n.targets) == 1 and isinstance(n.targets[0], ast.Name):
+            res = n.targets[0].id
+    outer = None
+    for n in ast.walk(node):
+        if isinstance(n, (ast.For, ast.While)) and id(n) in ords and any(is_call(c) for c in ast.walk(n)):
+            if outer is None or ords[id(n)] < ords[id(outer)]:
+                outer = n
+    counter = None
+    if isinstance(outer, ast.While) and isinstance(outer.test, ast.Compare) and isinstance(outer.test.left, ast.Name):
+        counter = outer.test.left.id
+    return dict(result=res, counter=counter, loop=ords[id(outer)] if outer is not None else 0)
+
+
+def _steps_array(L):
+    """the per-task step totals: the integer array among the locals"""
+    c = [v for v in L.frame.vars.values() if isinstance(v, NDArr) and v.elem_sort == INT]
+    return c[0] if len(c) == 1 else L["training_steps"]
+
+
 def _bind_result(name):
     """loop-head havoc of the local that holds the last single-task result: unbound before the
     first call, afterwards the result of the most recent call (its count is tied to the ghost by
@@ -366,11 +407,12 @@ def _uts_inv(L):
     E = L.E
     g = E.heap["ghost"].fields
     total = E.st.ghost["total"]
-    out = [("global_step==executed", C.compare("==", L["global_step"], g["$executed"])),
+    R = E.shared.roles
+    out = [("global_step==executed", C.compare("==", L[R["counter"]], g["$executed"])),
            ("executed<=total", C.compare("<=", g["$executed"], total)),
            ("calls>=0", C.compare(">=", g["$calls"], 0)),
            ("no_call=>nothing_executed", implies(C.compare("==", g["$calls"], 0), C.compare("==", g["$executed"], 0)))]
-    res = L.get("st_result")
+    res = L.get(R["result"])
     if res is None:
         out.append(("result.counts_executed", C.compare("==", g["$calls"], 0)))
     else:
@@ -402,7 +444,8 @@ def mk_h_uts(n, vector):
 
     def setup(shared):
         sched_setup(0 if symbolic else n)(shared)
-        shared.loop_specs[(UTS, 0)] = LoopSpec(inv=_uts_inv, havoc_extra=_bind_result("st_result"))
+        R = shared.roles = sched_roles(shared, UTS)
+        shared.loop_specs[(UTS, R["loop"])] = LoopSpec(inv=_uts_inv, havoc_extra=_bind_result(R["result"]))
     return Task(f"train_uts[n_tasks={'any' if symbolic else n},{'VectorEnv' if vector else 'DiscreteTaskSet'}]", h, setup=setup)
 
 
@@ -465,8 +508,9 @@ def _amt_inv(L):
     g = E.heap["ghost"].fields
     n = E.shared.n_tasks
     total = E.st.ghost["total"]
-    ts = L["training_steps"]
-    out = [("global_step==executed", C.compare("==", L["global_step"], g["$executed"])),
+    ts = _steps_array(L)
+    R = E.shared.roles
+    out = [("global_step==executed", C.compare("==", L[R["counter"]], g["$executed"])),
            ("executed<=total", C.compare("<=", g["$executed"], total)),
            ("calls>=0", C.compare(">=", g["$calls"], 0)),
            ("no_call=>nothing_executed", implies(C.compare("==", g["$calls"], 0), C.compare("==", g["$executed"], 0))),
@@ -480,11 +524,7 @@ def _amt_inv(L):
             out.append(("selector.selections==feedbacks", C.compare("==", sel.fields["$selections"], sel.fields["$feedbacks"])))
         elif "i" in sel.fields:
             out.append(("selector.position>=0", C.compare(">=", sel.fields["i"], 0)))
-    res = L.get("result_st")
-    if res is None:
-        out.append(("result.counts_executed", C.compare("==", g["$calls"], 0)))
-    else:
-        out.append(("result.counts_executed", implies(C.compare(">=", g["$calls"], 1), C.compare("==", res.get("global_step"), g["$executed"]))))
+    out += _result_inv(L, g)
     return out
 
 
@@ -548,7 +588,8 @@ def mk_amt(n, vector=False, selector="contract", n_selectables=0, logger=False):
         sched_setup(n)(shared)
         if isinstance(selector, str) and selector in DG_CONFIGS:
             shared.stubs[MT + "DUCBGeneralized"] = ctor
-        shared.loop_specs[(AMT, 0)] = LoopSpec(inv=_amt_inv, havoc_extra=_bind_result("result_st"))
+        R = shared.roles = sched_roles(shared, AMT)
+        shared.loop_specs[(AMT, R["loop"])] = LoopSpec(inv=_amt_inv, havoc_extra=_bind_result(R["result"]))
     nm = f"train_active_mt[n_tasks={n},{'VectorEnv' if vector else 'DiscreteTaskSet'},selector={selector}" + (f",{n_selectables} selectables" if n_selectables else "") + (",logger" if logger else "") + "]"
     return Task(nm, h, setup=setup)
 
@@ -573,8 +614,8 @@ def stage_state(E, g, gs, steps, n):
     return out
 
 
-def _result_inv(L, g, name="result_st"):
-    res = L.get(name)
+def _result_inv(L, g):
+    res = L.get(L.E.shared.roles["result"])
     if res is None:
         return [("result.counts_executed", C.compare("==", g["$calls"], 0))]
     return [("result.counts_executed", implies(C.compare(">=", g["$calls"], 1), C.compare("==", res.get("global_step"), g["$executed"])))]
@@ -622,7 +663,7 @@ def _stage2_inv(L):
     E = L.E
     g = E.heap["ghost"].fields
     n = E.shared.n_tasks
-    out = stage_state(E, g, L["global_step"], L["training_steps"], n)
+    out = stage_state(E, g, L[E.shared.roles["counter"]], _steps_array(L), n)
     out.append(("executed<=b_total", C.compare("<=", g["$executed"], E.st.ghost["total"])))
     out.append(("calls>=0", C.compare(">=", g["$calls"], 0)))
     out.append(("no_call=>nothing_executed", implies(C.compare("==", g["$calls"], 0), C.compare("==", g["$executed"], E.st.ghost["gs0"]))))
@@ -657,7 +698,8 @@ def mk_stage2(n, pool, n_selectables=0, logger=False, vector=False):
 
     def setup(shared):
         sched_setup(n)(shared)
-        shared.loop_specs[(SMT + "smt_stage2", 0)] = LoopSpec(inv=_stage2_inv, havoc_extra=_bind_result("result_st"))
+        R = shared.roles = sched_roles(shared, SMT + "smt_stage2")
+        shared.loop_specs[(SMT + "smt_stage2", R["loop"])] = LoopSpec(inv=_stage2_inv, havoc_extra=_bind_result(R["result"]))
     nm = f"smt_stage2[n_tasks={n},pool={sorted(pool)}" + (",VectorEnv" if vector else "") + (f",{n_selectables} selectables" if n_selectables else "") + (",logger" if logger else "") + "]"
     return Task(nm, h, setup=setup)
 
@@ -687,7 +729,7 @@ def _stage1_inv(L):
     E = L.E
     g = E.heap["ghost"].fields
     n, K = E.shared.n_tasks, E.shared.K
-    out = stage_state(E, g, L["global_step"], L["training_steps"], n)
+    out = stage_state(E, g, L[E.shared.roles["counter"]], _steps_array(L), n)
     out.append(("executed<=b1", C.compare("<=", g["$executed"], E.st.ghost["total"])))
     out.append(("calls>=0", C.compare(">=", g["$calls"], 0)))
     out.append(("no_call=>nothing_executed", implies(C.compare("==", g["$calls"], 0), C.compare("==", g["$executed"], E.st.ghost["gs0"]))))
@@ -700,7 +742,7 @@ def _stage1_inv(L):
 
 def _stage1_havoc(E, fr):
     """loop-head state of the pools: ANY configuration that satisfies POOLS (case split, exact)"""
-    _bind_result("result_st")(E, fr)
+    _bind_result(E.shared.roles["result"])(E, fr)
     n, K = E.shared.n_tasks, E.shared.K
     E._stage1_heads = getattr(E, "_stage1_heads", 0) + 1
     if E.phase == "discover" and E._stage1_heads > 1:
@@ -757,13 +799,14 @@ def mk_stage1(n, K, n_selectables=0, logger=False, vector=False, group=None, tie
         sched_setup(n)(shared)
         shared.K = K
         shared.pool_group = group
-        shared.loop_specs[(SMT + "smt_stage1", 0)] = LoopSpec(inv=_stage1_inv, havoc_extra=_stage1_havoc)
+        R = shared.roles = sched_roles(shared, SMT + "smt_stage1")
+        shared.loop_specs[(SMT + "smt_stage1", R["loop"])] = LoopSpec(inv=_stage1_inv, havoc_extra=_stage1_havoc)
     nm = f"smt_stage1[n_tasks={n},K={K}" + (",VectorEnv" if vector else "") + (f",{n_selectables} selectables" if n_selectables else "") + (",logger" if logger else "") + (f",head-configurations {group[0] + 1}/{group[1]}" if group else "") + "]"
     return Task(nm, h, setup=setup, tier=tier)
 
 
 STAGE1_TASKS = ([mk_stage1(2, 1, n_selectables=1), mk_stage1(2, 2, logger=True, vector=True)]
-                + [mk_stage1(3, 1, group=(j, 6)) for j in range(6)]
+                + [mk_stage1(3, 1, group=(j, 9)) for j in range(9)]
                 + [mk_stage1(3, 2, group=(j, 12), tier="thorough") for j in range(12)]
                 + [mk_stage1(3, 3, group=(j, 16), tier="thorough") for j in range(16)])
 
@@ -1228,9 +1271,11 @@ def mk_h_dg_select(n, cfg):
     return Task(f"DUCBGeneralized.select[{cfg},n_tasks={n}]", h, setup=lambda sh: _dg_stubs(sh, n))
 
 
-def mk_h_dg_feedback(n, cfg):
+def mk_h_dg_feedback(n, cfg, out_of_turn=False):
+    """out_of_turn: the dedicated task for the clause 'a rejected feedback is not recorded anywhere'
+    (stated once, for one configuration: the code path does not depend on the strategy)"""
     def h(E):
-        w0 = E.bool("waiting_for_reward")
+        w0 = False if out_of_turn else E.bool("waiting_for_reward")
         sel, d, t, last, arm = mk_dg(E, n, cfg, w0)
         f = d.fields
         ch_snap, rw_snap = f["chosen_arms"].copy(), f["rewards"].copy()
@@ -1241,9 +1286,13 @@ def mk_h_dg_feedback(n, cfg):
         _protocol_obligations(E, sel, w0, "feedback", kind, v, "dg")
         if kind == "raise":
             # a rejected feedback must not be recorded as feedback anywhere
-            ok = _same_list(f["chosen_arms"], ch_snap) and _same_list(f["rewards"], rw_snap)
-            (E.st.ok if ok else E.st.fail)("dg.feedback.rejected_call_leaves_bandit_history", *([] if ok else ["the bandit's history was modified before the call was rejected"]))
+            if out_of_turn:
+                ok = _same_list(f["chosen_arms"], ch_snap) and _same_list(f["rewards"], rw_snap)
+                (E.st.ok if ok else E.st.fail)("dg.feedback.rejected_call_leaves_bandit_history", *([] if ok else ["the bandit's history was modified before the call was rejected"]))
             E.oblige("canary.dg.feedback_rejected_when_waiting", _b(w0), assume_after=False)
+            return
+        if out_of_turn:
+            E.st.fail("dg.feedback.rejected_only_out_of_turn", "feedback without a pending selection was accepted")
             return
         first_visit = None
         for k in range(n):
@@ -1266,7 +1315,7 @@ def mk_h_dg_feedback(n, cfg):
                                                                                      _b(_same_list(f["chosen_arms"], ch_snap))))
         oblige_dwf_hist(E, d, "dg.feedback")
         E.oblige("canary.dg.feedback.always_first_visit", first_visit, assume_after=False)
-    return Task(f"DUCBGeneralized.feedback[{cfg},n_tasks={n}]", h, setup=lambda sh: _dg_stubs(sh, n))
+    return Task(f"DUCBGeneralized.feedback[{cfg},n_tasks={n}{',out of turn' if out_of_turn else ''}]", h, setup=lambda sh: _dg_stubs(sh, n))
 
 
 def mk_h_dg_init(n):
@@ -1285,7 +1334,7 @@ def mk_h_dg_init(n):
 
 DG_TASKS = ([mk_h_dg_init(2), mk_h_dg_init(3)]
             + [mk_h_dg_select(n, "Monotonic Progress") for n in (2, 3)]
-            + [mk_h_dg_feedback(2, cfg) for cfg in DG_CONFIGS] + [mk_h_dg_feedback(3, "Monotonic Progress"), mk_h_dg_feedback(3, "1-step Progress")])
+            + [mk_h_dg_feedback(2, cfg) for cfg in DG_CONFIGS] + [mk_h_dg_feedback(3, "Monotonic Progress"), mk_h_dg_feedback(3, "1-step Progress"), mk_h_dg_feedback(2, "Best Reward", out_of_turn=True)])
 
 DUCB_TASKS = [
     Task("DUCB.init", h_ducb_init, setup=sched_setup(0)),
@@ -1298,7 +1347,33 @@ DUCB_TASKS = [
 ]
 
 TASKS = list(SELECTOR_TASKS) + DUCB_TASKS + DG_TASKS + UTS_TASKS + AMT_TASKS + STAGE2_TASKS + STAGE1_TASKS + SMT_TASKS
-REPLAY = {"": "c11_sched"}
-TRUSTED = []
-ASSUMPTIONS = []
-NOT_COVERED = []
+REPLAY = {p: "c11_sched" for p in ("TaskSelector", "RoundRobinSelector", "DUCB", "train_uts", "train_active_mt", "smt_stage", "train_smt")}
+TRUSTED = [
+    "Gymnasium RecordEpisodeStatistics queues, collections.deque, numpy per-task arrays, Generator.choice without replacement (pyvc/lib/ext_sched.py)",
+    "sums over the bandit's window are defined by their recurrence (Finset.sum_range_succ); equalities between them by the induction schema ext_returns.induct (lemmas/SumLemmas.lean nat_induct_upto / fold_unique)",
+    "python lists of symbolic length (pyvc/lib/ext_symlist.py) for the bandit's histories; l[:-1] drops the last element",
+    "reals for the bandit's float arithmetic; sqrt / log / pow uninterpreted with their sign and monotonicity facts",
+]
+ASSUMPTIONS = [
+    "train_st (a PARAMETER of the schedulers) satisfies the per-routine contract of C11 proved in contracts/loops.py: it executes 0 <= k <= max(0, total_timesteps - global_step) steps, "
+    "completes at most total_episodes episodes and leaves as soon as that limit is reached (so every executed step then belongs to a completed episode), "
+    "returns only when the budget is used up or the episode limit is reached, and reports result.global_step == global_step + k",
+    "positive budgets (total_timesteps >= 1, b1 >= 1, b2 >= 1), scheduling_interval >= 1, episodes_per_task >= 1",
+    "configuration scenarios: n_tasks in {2, 3} wherever the code keeps per-task arrays / lists / pools (train_active_mt, SMT, DUCBGeneralized, DUCB after the initial rounds); "
+    "train_uts, RoundRobinSelector(np.arange(n)), DUCB's initial rounds, reward(), discounted mean and bonus are proved for ANY number of tasks / arms",
+    "SMT: 1 <= K <= n_tasks, unsolvable_threshold < solved_threshold (a nan mean return behaves like a value strictly between the thresholds), kappa in [0, 1]; "
+    "smt_stage1 for n_tasks == 3 with K in {2, 3} runs in the thorough tier only",
+    "smt_stage1's pools are the locals training_pool / main_pool / solved_pool / unsolvable_pool (the pool invariant is stated over these names); "
+    "result / counter locals of all schedulers are found by role, not by name",
+    "every completed episode has at least one step (RecordEpisodeStatistics records episode_lengths after incrementing it)",
+    "D-UCB: gamma in (0, 1], upper_bound > 0, zeta > 0; the window of the last 250 rounds is the implementation's documented truncation of the discounted sums; "
+    "choose_arm and reward alternate (DWF.lens), which DUCBGeneralized guarantees (dg.*.GWF obligations)",
+    "the asserts of the selector classes are executed (python is not run with -O)",
+]
+NOT_COVERED = [
+    "D-UCB with an arm whose discounted frequency N_t(k) is 0 (arm absent from the last 250 rounds): mean is 0/0 (nan), the contract is stated for N_t(k) > 0; "
+    "native bounded stand-in `ducb_zero_frequency` in replay/drivers/c11_sched.py (600 rounds, arm stays a valid index, no exception)",
+    "zero budgets: with total_timesteps == 0 (b1 == 0, b2 == 0) train_uts / train_active_mt / smt_stage1 / smt_stage2 reach `return result` with the result unbound (UnboundLocalError)",
+    "the VALUE of the intrinsic reward DUCBGeneralized hands to the bandit (baseline / op arithmetic) - only how often and for which arm it is recorded",
+    "more than 3 tasks for the routines with per-task python containers",
+]
